@@ -1377,7 +1377,21 @@ fn c11(cx: &Ctx, o: &mut Outcome) {
     }
     let cfg = model::cors_cfg(&cx.sc.env);
     for i in cx.scripted() {
-        if !cx.sc.conns[i].strict() {
+        let sc_conn = &cx.sc.conns[i];
+        if !sc_conn.strict() {
+            // a request that arrives in several segments (the server may have seen only a part of it):
+            // whatever it saw, an Origin that is not configured gets nothing
+            if !sc_conn.delivery.is_empty() && sc_conn.client == ClientMode::Normal && sc_conn.faults.is_clean() && cx.wellformed_req(i) && !cfg.allow_all {
+                if let (Some(org), Some(resp)) = (cx.reqs[i].header("Origin"), cx.resp(i)) {
+                    if !cfg.origins.iter().any(|x| x == org) {
+                        o.evaluated = true;
+                        let acs: Vec<String> = resp.headers.iter().filter(|(n, _)| n.to_ascii_lowercase().starts_with("access-control-")).map(|(n, v)| format!("{}: {}", n, v)).collect();
+                        if !acs.is_empty() {
+                            o.verdicts.push(v("C11", format!("grant_to_unlisted_origin.torn_request.{}", origin_relation(org, &cfg.origins)), format!("{} {} Origin: {:?} (allow_all=false origins={:?}), delivered in segments of {:?} bytes: the Origin is not one of the configured origins but the response carries {:?}", cx.reqs[i].method, cx.reqs[i].target, org, cfg.origins, sc_conn.delivery.iter().map(|s| s.len).collect::<Vec<_>>(), acs), Some(i)));
+                        }
+                    }
+                }
+            }
             continue;
         }
         if !cx.wellformed_req(i) {
